@@ -47,6 +47,12 @@ def main():
                                env=dict(os.environ, CARGO_NET_OFFLINE="true"))
             print("demo with patch: rc=%d (expected non-zero)" % r.returncode)
             os.remove(os.path.join(wt, meta["demo_path"]))
+        # warm start: the registry dependencies of the harness are the same for every worktree, so a
+        # copy of the main target directory saves the cold build (only the path crates are rebuilt)
+        tag0 = hashlib.sha1(wt.encode()).hexdigest()[:10]
+        tdst, tsrc = os.path.join(V, ".cache", "target-" + tag0), os.path.join(V, ".cache", "target")
+        if os.environ.get("SEEDTEST_WARM", "1") == "1" and os.path.isdir(tsrc) and not os.path.exists(tdst):
+            subprocess.run(["cp", "-a", "--reflink=auto", tsrc, tdst])
         for p in props:
             env = dict(os.environ, WACV_REPO=wt)
             r = subprocess.run([os.path.join(V, "check"), p, "--tier", tier], cwd=V, env=env, capture_output=True, text=True)
